@@ -406,7 +406,7 @@ def textbook(kind, uni, start, d, k, via):
 
 class C07(TravBase):
     id = "C07"
-    modules = ["EG.Props.C07", "EG.Props.C07World"]
+    modules = ["EG.Props.C07", "EG.Props.C07World", "EG.Props.C07Rename"]
 
     def oracle(self, real, line, out, pre):
         w = line.split()[0]
